@@ -7,8 +7,7 @@
    RocksStorage on every run. State-machine safety of the protocol over all schedules is proved
    on the abstract protocol in coq/RaftAbs by the raftabs group.
 
-   >>> PLACE FOR THE ABSTRACT-PROTOCOL THEOREMS (coq/RaftAbs): log matching, leader completeness,
-   >>> state-machine safety. To be wired here by the coordinator. <<< *)
+   The abstract-protocol theorems (coq/RaftAbs) are stated at the end of this file. *)
 From ZV Require Import Raft.Consts Raft.Model Raft.Proofs Raft.ProofsLog.
 From Coq Require Import List NArith.
 Import ListNotations.
@@ -103,6 +102,78 @@ Theorem C02_advance_gap_free : forall l m off es,
     N.max (l_applied l2 + 1) (mfirst l2 off) = eindex e + 1.
 Proof. exact advance_after_handout. Qed.
 Print Assumptions C02_advance_gap_free.
+
+
+(* ====================================================================================== *)
+(* The property over all schedules, on the abstract protocol of coq/RaftAbs (Model.v: per-node term /
+   vote / role / log / commit / configuration, the network as grant, ack and campaign records, crash and
+   restart from the persisted part, snapshots as compacted prefixes). "_fixed": every node keeps its
+   configuration (any voter list, any learner list) — no hypothesis. "_reconf_partial": arbitrary
+   configuration changes under the explicit hypothesis Overlap (any two voter lists a majority was
+   counted over have intersecting majorities). The tie to the Go code: every check run replays traces of
+   the real cluster through the extracted acceptor (RaftAbs/Acceptor.v, proved sound in
+   AcceptorSound.v): an accepted trace is a trace of this protocol. *)
+From ZV Require RaftAbs.Theorems.
+Module AM := ZV.RaftAbs.Model. Module AS := ZV.RaftAbs.Safety. Module AL := ZV.RaftAbs.ListFacts.
+Module AI := ZV.RaftAbs.Inv. Module AA := ZV.RaftAbs.Acceptor. Module AT := ZV.RaftAbs.Theorems.
+
+Theorem C02_log_matching_fixed : forall (cf : AM.config) (log0 : list AM.entry), AM.init_ok cf log0 ->
+  forall s, AM.steps_fixed (AM.init cf log0) s ->
+  forall (i j k : nat) e e',
+    nth_error (AM.log (AM.nodes s i)) k = Some e -> nth_error (AM.log (AM.nodes s j)) k = Some e' ->
+    AM.eterm e = AM.eterm e' ->
+    firstn (S k) (AM.log (AM.nodes s i)) = firstn (S k) (AM.log (AM.nodes s j)).
+Proof. exact AT.log_matching_fixed. Qed.
+Print Assumptions C02_log_matching_fixed.
+
+(* state-machine safety: two nodes agree on every index both have committed *)
+Theorem C02_state_machine_safety_fixed : forall (cf : AM.config) (log0 : list AM.entry), AM.init_ok cf log0 ->
+  forall s, AM.steps_fixed (AM.init cf log0) s ->
+  forall (i j k : nat) e e',
+    (k < AM.commit (AM.nodes s i))%nat -> (k < AM.commit (AM.nodes s j))%nat ->
+    nth_error (AM.log (AM.nodes s i)) k = Some e -> nth_error (AM.log (AM.nodes s j)) k = Some e' -> e = e'.
+Proof. exact AT.state_machine_safety_fixed. Qed.
+Print Assumptions C02_state_machine_safety_fixed.
+
+(* every node's application cursor stays inside the global committed log *)
+Theorem C02_applied_prefix_global_fixed : forall (cf : AM.config) (log0 : list AM.entry), AM.init_ok cf log0 ->
+  forall s, AM.steps_fixed (AM.init cf log0) s ->
+  forall j : nat, (AM.app s j <= length (AM.gcommit s))%nat.
+Proof. exact AT.applied_prefix_global_fixed. Qed.
+Print Assumptions C02_applied_prefix_global_fixed.
+
+(* an index applied anywhere is never replaced later, whatever happens next (crash/restart included) *)
+Theorem C02_applied_never_replaced_fixed : forall (cf : AM.config) (log0 : list AM.entry), AM.init_ok cf log0 ->
+  forall s, AM.steps_fixed (AM.init cf log0) s ->
+  forall s' (i j k : nat), AM.steps_fixed s s' -> (k < AM.app s i)%nat -> (k < AM.app s' j)%nat ->
+    nth_error (AM.gcommit s') k = nth_error (AM.gcommit s) k.
+Proof. exact AT.applied_never_replaced_fixed. Qed.
+Print Assumptions C02_applied_never_replaced_fixed.
+
+Theorem C02_state_machine_safety_reconf_partial : forall (cf : AM.config) (log0 : list AM.entry), AM.init_ok cf log0 ->
+  forall s, AM.reachable cf log0 s -> AI.Overlap s ->
+  forall (i j k : nat) e e',
+    (k < AM.commit (AM.nodes s i))%nat -> (k < AM.commit (AM.nodes s j))%nat ->
+    nth_error (AM.log (AM.nodes s i)) k = Some e -> nth_error (AM.log (AM.nodes s j)) k = Some e' -> e = e'.
+Proof. exact AT.state_machine_safety_reconf_partial. Qed.
+Print Assumptions C02_state_machine_safety_reconf_partial.
+
+
+(* what remains unproved: state-machine safety under arbitrary configuration changes without Overlap *)
+Definition C02_full : Prop :=
+  forall (cf : AM.config) (log0 : list AM.entry), AM.init_ok cf log0 ->
+  forall s, AM.reachable cf log0 s ->
+  forall (i j k : nat) e e',
+    (k < AM.commit (AM.nodes s i))%nat -> (k < AM.commit (AM.nodes s j))%nat ->
+    nth_error (AM.log (AM.nodes s i)) k = Some e -> nth_error (AM.log (AM.nodes s j)) k = Some e' -> e = e'.
+
+(* every node's committed prefix is a prefix of the global committed log *)
+Theorem C02_committed_prefix_global_fixed : forall (cf : AM.config) (log0 : list AM.entry), AM.init_ok cf log0 ->
+  forall s, AM.steps_fixed (AM.init cf log0) s ->
+  forall j : nat, (AM.commit (AM.nodes s j) <= length (AM.log (AM.nodes s j)))%nat /\
+    AL.prefix (firstn (AM.commit (AM.nodes s j)) (AM.log (AM.nodes s j))) (AM.gcommit s).
+Proof. exact AT.committed_prefix_global_fixed. Qed.
+Print Assumptions C02_committed_prefix_global_fixed.
 
 (* ---------- non-vacuity ---------- *)
 Example C02_ex_truncate :
